@@ -32,6 +32,18 @@ Theorem C15_source : forall c items e,
   parse_source c true (render items) = Some (itree c e).
 Proof. exact infix_source. Qed.
 
+(* ... and for ANY source whose tokens are the expression's, the glued `!ident` spelling included (the lexer splits it):
+   spacing never changes the tree *)
+Theorem C15_source_any : forall c s toks e,
+  lex_tab true s = Some toks -> drop_comments toks = itoks e -> iwf c e -> ichk e ->
+  parse_source c true s = Some (itree c e).
+Proof. exact infix_source_any. Qed.
+Example C15_glued_not :
+  option_map drop_comments (lex_tab true (ss "a&&!b")) = None /\
+  option_map drop_comments (lex_tab true (ss "a && !b || !  c")) = option_map drop_comments (lex_tab true (ss "a  &&  ! b ||
+ !c ; note")).
+Proof. vm_compute. split; reflexivity. Qed.
+
 (* the leaves: integer and string literals, variables, constants, bracket lists *)
 Theorem C15_atom_int : forall c s z, parse_int s = Some z -> iwf c (IAtom [KInt s] (TConst (VInt z))) /\ acheck [KInt s].
 Proof. exact atom_int. Qed.
@@ -70,3 +82,4 @@ Proof. vm_compute. repeat split. Qed.
 Print Assumptions C15_parse_infix.
 Print Assumptions C15_infix_is_prefix.
 Print Assumptions C15_source.
+Print Assumptions C15_source_any.
